@@ -178,6 +178,40 @@ func (cs *concState) term(js interface{}, t types.Type) (Term, error) {
 		}
 		dyn, hasDyn := m["dyn"].(string)
 		if hasDyn && !strings.HasSuffix(dyn, ".govcReader") {
+			// a value of a named type of the repository (or a pointer to one) inside an interface
+			dt := cs.u.eng.typeByReflectName(dyn)
+			if dt == nil {
+				return Term{}, fmt.Errorf("interface value of dynamic type %s not supported in concrete evaluation", dyn)
+			}
+			tag := cs.u.eng.typeTag(dt)
+			ds := u.tc.sortOf(dt)
+			switch ds.K {
+			case KRef:
+				pt, err := cs.term(m["val"], dt)
+				if err != nil {
+					return Term{}, err
+				}
+				return Term{fmt.Sprintf("(mk-iface %d %s (_ bv0 64))", tag, pt.S), s}, nil
+			case KBV:
+				vt, err := cs.term(m["val"], dt)
+				if err != nil {
+					return Term{}, err
+				}
+				return Term{fmt.Sprintf("(mk-iface %d 0 %s)", tag, u.bvResize(vt, bvSort(64, vt.T.Signed)).S), s}, nil
+			case KInt:
+				vt, err := cs.term(m["val"], dt)
+				if err != nil {
+					return Term{}, err
+				}
+				return Term{fmt.Sprintf("(mk-iface %d %s (_ bv0 64))", tag, vt.S), s}, nil
+			case KStruct:
+				// boxed: the payload is a reference to a copy of the value
+				pt, err := cs.term(map[string]interface{}{"nil": false, "val": m["val"]}, types.NewPointer(dt))
+				if err != nil {
+					return Term{}, err
+				}
+				return Term{fmt.Sprintf("(mk-iface %d %s (_ bv0 64))", tag, pt.S), s}, nil
+			}
 			return Term{}, fmt.Errorf("interface value of dynamic type %s not supported in concrete evaluation", dyn)
 		}
 		ref := cs.next
@@ -283,12 +317,6 @@ func (cs *concState) state(nextRef int64) *State {
 // evalClauseConcrete evaluates the failed postcondition on the values observed on the real code.
 // Returns true when the clause is false there.
 func evalClauseConcrete(e *Engine, u *Unit, o *Obligation, fn *ssa.Function, params []*cval, oc *replayOutcome) (violated bool, detail string) {
-	defer func() {
-		if r := recover(); r != nil {
-			violated = false
-			detail = fmt.Sprintf("clause could not be evaluated on concrete values: %v", r)
-		}
-	}()
 	ct := e.contracts[u.name]
 	if ct == nil {
 		return false, "no contract"
@@ -302,12 +330,43 @@ func evalClauseConcrete(e *Engine, u *Unit, o *Obligation, fn *ssa.Function, par
 	if clause == nil {
 		return false, "clause not found for " + o.Name
 	}
+	// the harness must have established the precondition, otherwise the run says nothing
+	for _, rq := range ct.Requires {
+		if bad, _ := evalOneConcrete(e, fn, oc, rq, true); bad {
+			return false, "the harness did not establish the precondition (" + rq.Src + "): the run says nothing about the contract"
+		}
+	}
+	return evalOneConcrete(e, fn, oc, clause, false)
+}
+
+// preconditionBroken: some requires clause is definitely false on the observed pre-state.
+func preconditionBroken(e *Engine, u *Unit, fn *ssa.Function, oc *replayOutcome) string {
+	ct := e.contracts[u.name]
+	if ct == nil {
+		return ""
+	}
+	for _, rq := range ct.Requires {
+		if bad, _ := evalOneConcrete(e, fn, oc, rq, true); bad {
+			return rq.Src
+		}
+	}
+	return ""
+}
+
+// evalOneConcrete evaluates one clause on observed values (inPre: over the pre-state only).
+func evalOneConcrete(e *Engine, fn *ssa.Function, oc *replayOutcome, clause *Clause, inPre bool) (violated bool, detail string) {
+	defer func() {
+		if r := recover(); r != nil {
+			violated = false
+			detail = fmt.Sprintf("clause could not be evaluated on concrete values: %v", r)
+		}
+	}()
 	cu := e.newUnit("replay-eval")
 	cu.concrete = true
 	pre := newConcState(cu, 1)
 	post := newConcState(cu, 1)
 	vars := map[string]Val{}
-	if len(oc.Pre) != len(fn.Params) || len(oc.Post) != len(fn.Params) {
+	if len(oc.Pre) != len(fn.Params) || (!inPre && len(oc.Post) != len(fn.Params)) {
 		return false, "observed parameter list has the wrong length"
 	}
 	for i, p := range fn.Params {
@@ -315,14 +374,16 @@ func evalClauseConcrete(e *Engine, u *Unit, o *Obligation, fn *ssa.Function, par
 		if err != nil {
 			return false, err.Error()
 		}
-		if _, err := post.term(oc.Post[i], p.Type()); err != nil {
-			return false, err.Error()
+		if !inPre {
+			if _, err := post.term(oc.Post[i], p.Type()); err != nil {
+				return false, err.Error()
+			}
 		}
 		vars[p.Name()] = t
 	}
 	post.next = 1000
 	rt := fn.Signature.Results()
-	for i := 0; i < rt.Len() && i < len(oc.Results); i++ {
+	for i := 0; !inPre && i < rt.Len() && i < len(oc.Results); i++ {
 		t, err := post.term(oc.Results[i], rt.At(i).Type())
 		if err != nil {
 			return false, err.Error()
@@ -336,7 +397,10 @@ func evalClauseConcrete(e *Engine, u *Unit, o *Obligation, fn *ssa.Function, par
 		}
 	}
 	preSt := pre.state(1000)
-	postSt := post.state(2000)
+	postSt := preSt
+	if !inPre {
+		postSt = post.state(2000)
+	}
 	env := &SpecEnv{u: cu, vars: vars, st: postSt, old: preSt, pkg: fn.Pkg, bound: map[string]Term{}, ctx: "concrete evaluation"}
 	t := env.evalBool(clause.X)
 	ob := &Obligation{Name: "concrete", Goal: t, NItems: len(cu.items)}
